@@ -229,6 +229,17 @@ class Cached:
             trip_ins = [(i, ev) for (i, ev) in E.inserts if i > li]
             eta = semspec.Eta(self.S, l)
             b_case = semspec.discr_case(l, B)
+            # whatever a trip stores last must be the best result it ends with (a later cache hit serves what is stored)
+            if trip_ins:
+                if l.kind == "loopback":
+                    nb = dict(l.ret[2]).get(bl) if l.ret is not None else None
+                    best_end = nb if nb is not None else B
+                else:
+                    best_end = l.ret
+                if best_end is not None and not eta.same(trip_ins[-1][1][0][2][2], best_end):
+                    self.v("exit", "stored-not-best", "growth loop of parse_%s: the value stored in the cache (%s) is not the best result the trip ends with (%s): "
+                           "a later lookup at this position is answered with something else than what this call returned"
+                           % (self.rule, mir.show(trip_ins[-1][1][0][2][2])[:80], mir.show(best_end)[:80]), trip_ins[-1][1])
             if l.kind == "loopback":
                 n_trips += 1
                 newB = dict(l.ret[2]).get(bl) if l.ret is not None else None
